@@ -77,7 +77,7 @@ theorem splat_prefix (rs : List Rec) (k : Nat) (hk : k ≤ (rs.flatMap encRec).l
 
 /-- the same at the level of `splat.Read` on a written cloud: the decoded splats are those of the records
     wholly contained in the prefix, in order -/
-theorem splat_prefix_read {α : Type} [Scalar α] (E : Env α) (cloud : List (Splat.Splat α)) (k : Nat)
+theorem splat_prefix_read {α : Type} [Scalar α] (E : Splat.Env α) (cloud : List (Splat.Splat α)) (k : Nat)
     (hk : k ≤ (Splat.write E cloud).length) :
     Splat.read E ((Splat.write E cloud).take k) =
       ((cloud.take (k / 32)).map (fun s => decSplat E (encSplat E s)), decide (k % 32 ≠ 0)) := by
@@ -322,6 +322,130 @@ theorem pts_prefix (L : Lex) (fpp : Nat) (c : Line) (pl : List Line) (hx : PtsOk
           | cons l2 pl => left; simp [ptsLoop]
         · left; simp only [hok, Bool.not_false, if_true]; exact ⟨_, rfl⟩
 
+
+/-! ## iteration counts: every loop consumes input
+
+  Each reader is a total function whose loops are structural recursions on the input; the number of
+  iterations is bounded by the number of records / lines, hence by the number of bytes. -/
+
+theorem reader_steps_linear_splat (bs : List UInt8) : (readRecs bs).steps ≤ bs.length / 32 + 1 := by
+  induction bs using readRecs.induct with
+  | case1 => rw [readRecs]; simp
+  | case2 bs h hd => rw [readRecs]; simp [h, hd]
+  | case3 bs h r hd ih =>
+    rw [readRecs]; simp only [h, hd, dite_false]
+    have hl := decRec_some_length hd
+    simp only [List.length_take] at hl
+    simp only [List.length_drop] at ih
+    omega
+
+theorem reader_steps_linear_arrays (sizes : List Nat) (bs : List UInt8) (h : ∀ n ∈ sizes, 1 ≤ n) :
+    readArraysSteps sizes bs ≤ bs.length + 1 := by
+  induction sizes generalizing bs with
+  | nil => simp [readArraysSteps]
+  | cons n ns ih =>
+    have hn := h n List.mem_cons_self
+    simp only [readArraysSteps]
+    split
+    · have := ih (bs.drop n) (fun m hm => h m (List.mem_cons_of_mem _ hm))
+      simp only [List.length_drop] at this; omega
+    · omega
+
+theorem reader_steps_linear_ascii_verts (L : Lex) (np : Nat) (ls : List Line) (n : Nat) :
+    asciiVertsSteps L np ls n ≤ ls.length + 1 := by
+  induction ls generalizing n with
+  | nil => cases n <;> simp [asciiVertsSteps]
+  | cons l ls ih =>
+    cases n with
+    | zero => simp [asciiVertsSteps]
+    | succ n =>
+      simp only [asciiVertsSteps, List.length_cons]
+      split
+      · have := ih (n + 1); omega
+      · split
+        · omega
+        · split
+          · omega
+          · have := ih n; omega
+
+theorem reader_steps_linear_ascii_faces (L : Lex) (f : FaceHdr) (ls : List Line) (n : Nat) :
+    asciiFacesSteps L f ls n ≤ ls.length + 1 := by
+  induction ls generalizing n with
+  | nil => cases n <;> simp [asciiFacesSteps]
+  | cons l ls ih =>
+    cases n with
+    | zero => simp [asciiFacesSteps]
+    | succ n =>
+      simp only [asciiFacesSteps, List.length_cons]
+      split
+      · have := ih (n + 1); omega
+      · split
+        · omega
+        · have := ih n; omega
+
+theorem reader_steps_linear_pts (L : Lex) (ls : List Line) (n : Nat) (o : Option Nat) :
+    ptsLoopSteps L ls n o ≤ ls.length + 1 := by
+  induction ls generalizing n o with
+  | nil => cases n <;> simp [ptsLoopSteps]
+  | cons l ls ih =>
+    cases n with
+    | zero => simp [ptsLoopSteps]
+    | succ n =>
+      have := ih n (some l.toks.length)
+      simp only [ptsLoopSteps, List.length_cons]
+      generalize ptsLoopSteps L ls n (some l.toks.length) = q at *
+      repeat' split
+      all_goals first | omega | exact Nat.succ_le_succ this
+
+/-- the scanner delivers at most one line per byte (plus a final unterminated one) -/
+theorem scanLines_length (bs : List UInt8) : (scanLines bs).length ≤ bs.length + 1 := by
+  have aux : ∀ (bs cur : List UInt8), (scanLinesAux bs cur).length ≤ bs.length + 1 := by
+    intro bs
+    induction bs with
+    | nil => intro cur; simp only [scanLinesAux]; split <;> simp
+    | cons b bs ih =>
+      intro cur
+      simp only [scanLinesAux]
+      split
+      · have := ih []; simp only [List.length_cons]; omega
+      · have := ih (b :: cur); simp only [List.length_cons]; omega
+  simpa [scanLines] using aux bs []
+
+/-! ## no placeholder: an `ok` on a cut file is (a prefix-restriction of) the full decode
+
+  For the ASCII formats see `ply_ascii_prefix` (always an error) and `pts_prefix` (error, or the one
+  restricted point of `ptsPoint_restriction`). -/
+
+theorem no_placeholder_stl (hdr : List UInt8) (tris : List (List UInt8)) (hh : hdr.length = 80)
+    (ht : ∀ t ∈ tris, t.length = 50) (hn : tris.length < 2 ^ 32) (k : Nat) (m : List (List UInt8))
+    (h : readStl ((stlFile hdr tris).take k) = .ok m) : m = tris := by
+  by_cases hk : k < (stlFile hdr tris).length
+  · rw [stl_prefix_rejected hdr tris hh ht hn k hk] at h; cases h
+  · rw [List.take_of_length_le (by omega), stl_full hdr tris hh ht hn] at h
+    cases h; rfl
+
+theorem no_placeholder_splat (rs : List Rec) (k : Nat) :
+    (readRecs ((rs.flatMap encRec).take k)).recs <+: rs := by
+  by_cases hk : k ≤ (rs.flatMap encRec).length
+  · rw [splat_prefix rs k hk]; exact List.take_prefix _ _
+  · rw [List.take_of_length_le (by omega), readRecs_flatMap]
+
+theorem no_placeholder_spz (bs : List UInt8) (h16 : 16 ≤ bs.length)
+    (hlen : bs.length = payloadLength (parseHeader (bs.take 16))) (k : Nat) (a : Arrays)
+    (h : readRaw (bs.take k) = .ok a) : readRaw bs = .ok a := by
+  by_cases hk : k < bs.length
+  · obtain ⟨e, he⟩ := spz_prefix bs h16 hlen k hk
+    rw [he] at h; cases h
+  · rwa [List.take_of_length_le (by omega)] at h
+
+theorem no_placeholder_ply_binary (L : Lex) (be : Bool) (h : Hdr) (hfmt : h.fmt = if be then .be else .le)
+    (x : BinFile) (hx : x.ok h) (k : Nat) (m : PlyMesh)
+    (hm : readPly L h ((x.bytes be h).take k) = .ok m) : m = .bin (x.mesh be h) := by
+  by_cases hk : k < (x.bytes be h).length
+  · obtain ⟨e, he⟩ := ply_binary_prefix_rejected L be h hfmt x hx k hk
+    rw [he] at hm; cases hm
+  · rw [List.take_of_length_le (by omega), ply_binary_full L be h hfmt x hx] at hm
+    cases hm; rfl
 
 /-! ## non-vacuity: concrete files satisfying the hypotheses -/
 
